@@ -147,7 +147,15 @@ def r1(ctx: Ctx):
         txt = unparse(x.args[0]) if x.args else ''
         recv = unparse(x.func.value)
         if recv in ('tasks', 'timeout_tasks') and 'task' in txt:
-          if '_exc=None' in txt:
+          setc = [c for c in ast.walk(x.args[0]) if isinstance(c, ast.Call)
+                  and isinstance(c.func, ast.Attribute) and c.func.attr == 'set']
+          extra = [k.arg for c in setc for k in c.keywords if k.arg != '_exc']
+          if '_exc=None' in txt and extra:
+            ctx.fail(rule, fi, x, f'the retried task also overrides {extra}:'
+                     ' its future/worker is forgotten before the stale call can'
+                     ' be cancelled, so an orphaned call that completes later'
+                     ' delivers its result a second time')
+          elif '_exc=None' in txt:
             ctx.ok(rule, fi, f'{recv}.append({txt})', x)
           elif 'next(' not in txt and 'pop' not in txt:
             ctx.fail(rule, fi, x, 'a task is queued for retry with its recorded'
@@ -327,9 +335,11 @@ def r4(ctx: Ctx):
 def r5(ctx: Ctx):
   rule = 'R-C06-5'
   ctx.rule(rule, 'all workers are released afterwards: R-C20-6 (acquire/release'
-           ' pairing on every exit) evaluated for the pool-level operations')
+           ' pairing on every exit) and R-C20-5 (guarded releases over ALL'
+           ' workers of the pool) evaluated for the pool-level operations')
   sub = Ctx(ctx.pid, ctx.repo, ctx.tier)
   c20.r6(sub)
+  c20.r5(sub)
   for f in sub.findings:
     fi = _find(ctx.repo, f.module, f.qualname)
     ctx.fail(rule, fi, f.construct, f.message, node=fi.node, witness=f.witness)
@@ -357,6 +367,10 @@ _W = 'chainables/courier_worker.py'
 _O = 'chainables/orchestrate.py'
 _U = 'utils/courier_utils.py'
 VARIANTS = [
+    B('retry-forgets-future', _W,
+      "                'chainable: %s', f'worker timeout, worker: {task.worker}'\n            )\n            timeout_tasks.append(task.set(_exc=None))",
+      "                'chainable: %s', f'worker timeout, worker: {task.worker}'\n            )\n            timeout_tasks.append(task.set(_exc=None, state=None))",
+      'R-C06-1'),
     B('iterate-drops-still-running', _W,
       '          elif task.is_alive:\n            still_running_tasks.append(task)\n',
       '          elif task.is_alive:\n            pass\n', 'R-C06-1'),
